@@ -21,7 +21,9 @@ META = {
                   "(C17_no_inflight_leak); an undisturbed round sends every snapshot address exactly once (C17_round_covers); every healthy "
                   "schedule of a round that reaches quiescence has emptied the cache into the main storage and one exists from every "
                   "quiescent reachable state (C17_progress_all, C17_progress). The model is tied on every run: scheduler batches, worker "
-                  "effects, counters, in-flight set and abort behaviour are compared on generated scripts (sequential schedules, exact), "
+                  "effects, counters, in-flight set and abort behaviour are compared on generated scripts (sequential schedules and schedules "
+                  "with a blocked main storage, in which rounds begin while workers hold batches, the scheduler gets stuck at a hand-over "
+                  "and meets a buffered tick; exact), "
                   "and the theorem right-hand sides are evaluated on concurrent / randomly failing runs of the real cache.",
     "level_note": "partial: fairness of the Go scheduler/ticker is assumed (the scheduler eventually takes its error branch and runs a "
                   "round; progress is stated per round). Modelled, not verified: each of cache.put = [fsTree.Put; counters.Add] and "
